@@ -38,11 +38,16 @@ Inductive tp_cond := CTrue | CFalse | CConn | CUri | CReqHdr | CRespHdr.
 Inductive tp_dact :=
   | DDeny | DDrop | DRedirect (url : bytes) | DPass | DBlock | DAllow (sc : tp_scope).
 
+(* the four ctl actions that change the per-transaction body settings *)
+Inductive tp_bctl :=
+  | BReqLimit (n : Z) | BRespLimit (n : Z) | BReqAcc (b : bool) | BRespAcc (b : bool).
+
 (* one element of an action list as parseActions sees it *)
 Inductive tp_item :=
   | IDis (d : tp_dact)          (* an action of type Disruptive *)
   | IStatus (n : N)             (* status:N *)
   | ICtl (m : tp_mode)          (* ctl:ruleEngine=m *)
+  | IBody (b : tp_bctl)         (* ctl:requestBodyLimit / responseBodyLimit / requestBodyAccess / responseBodyAccess *)
   | ISkip (n : N)               (* skip:n, n >= 1 *)
   | ISkipAfter (m : N)          (* skipAfter:M<m> *)
   | IInert.                     (* id, phase, log, nolog, msg, tag, setvar, ... : no effect on this model *)
@@ -478,6 +483,66 @@ Definition tp_step (c : tp_cfg) (s : tp_state) (k : tp_call) : tp_state * tp_ret
   | KWResp n => tp_body_write (c_respacc c) (c_resplim c) (c_respact c) 500 st_resplen set_resplen (tp_prespb c) n None s
   | KRResp n k => tp_body_write (c_respacc c) (c_resplim c) (c_respact c) 500 st_resplen set_resplen (tp_prespb c) n (Some k) s
   end.
+
+(* ---------------------------------------------------------------------------------- *)
+(* per-transaction body settings changed by ctl (layered on the machine above)          *)
+(* ---------------------------------------------------------------------------------- *)
+(* ctl:requestBodyLimit / requestBodyAccess (effective while tx.LastPhase() <= 1) and
+   ctl:responseBodyLimit / responseBodyAccess (while <= 3) are non-disruptive actions of the starter:
+   they run whenever the starter matches.  Nothing inside RuleGroup.Eval reads the four settings, so the
+   settings a body call sees are a function of the evaluation history: every EvRule event whose starter
+   matched applies the body ctls of that rule (looked up by rule id) with the phase it ran in. *)
+
+Record tp_body := mkBody { b_reqacc : bool; b_reqlim : Z; b_respacc : bool; b_resplim : Z }.
+
+(* ctl.go, phase = tx.LastPhase() = the phase being evaluated *)
+Definition tp_exec_bctl1 (p : N) (b : tp_body) (x : tp_bctl) : tp_body :=
+  match x with
+  | BReqLimit n => if p <=? 1 then mkBody (b_reqacc b) n (b_respacc b) (b_resplim b) else b
+  | BReqAcc a => if p <=? 1 then mkBody a (b_reqlim b) (b_respacc b) (b_resplim b) else b
+  | BRespLimit n => if p <=? 3 then mkBody (b_reqacc b) (b_reqlim b) (b_respacc b) n else b
+  | BRespAcc a => if p <=? 3 then mkBody (b_reqacc b) (b_reqlim b) a (b_resplim b) else b
+  end.
+
+Definition tp_bmap := list (N * list tp_bctl).
+
+Fixpoint tp_bctls_of (bm : tp_bmap) (id : N) : list tp_bctl :=
+  match bm with [] => [] | (i, l) :: r => if i =? id then l else tp_bctls_of r id end.
+
+Definition tp_body_ev (bm : tp_bmap) (b : tp_body) (e : tp_event) : tp_body :=
+  match e with
+  | EvRule p r RNoMatch => b
+  | EvRule p r _ => fold_left (tp_exec_bctl1 p) (tp_bctls_of bm (r_id r)) b
+  | _ => b
+  end.
+
+(* tx.RequestBodyAccess / RequestBodyLimit / ResponseBodyAccess / ResponseBodyLimit after history t *)
+Definition tp_body_of (c : tp_cfg) (bm : tp_bmap) (t : list tp_event) : tp_body :=
+  fold_left (tp_body_ev bm) t (mkBody (c_reqacc c) (c_reqlim c) (c_respacc c) (c_resplim c)).
+
+(* the body ctls of every rule (merged action list, list order) *)
+Definition tp_compile_bmap (w : tp_waf) : tp_bmap :=
+  flat_map (fun r => match rr_mark r with
+                     | Some _ => []
+                     | None => [(rr_id r, flat_map (fun a => match a with IBody b => [b] | _ => [] end)
+                                                   (tp_compiled_actions (w_defaults w) r))]
+                     end) (w_rules w).
+
+(* the API with the current settings: body calls use them, every other call is tp_step *)
+Definition tb_step (c : tp_cfg) (bm : tp_bmap) (s : tp_state) (k : tp_call) : tp_state * tp_ret :=
+  let b := tp_body_of c bm (st_trace s) in
+  match k with
+  | KWReq n => tp_body_write (b_reqacc b) (b_reqlim b) (c_reqact c) 413 st_reqlen set_reqlen (tp_prb c) n None s
+  | KRReq n kn => tp_body_write (b_reqacc b) (b_reqlim b) (c_reqact c) 413 st_reqlen set_reqlen (tp_prb c) n (Some kn) s
+  | KWResp n => tp_body_write (b_respacc b) (b_resplim b) (c_respact c) 500 st_resplen set_resplen (tp_prespb c) n None s
+  | KRResp n kn => tp_body_write (b_respacc b) (b_resplim b) (c_respact c) 500 st_resplen set_resplen (tp_prespb c) n (Some kn) s
+  | _ => tp_step c s k
+  end.
+
+Definition tb_run_from (c : tp_cfg) (bm : tp_bmap) (s : tp_state) (ks : list tp_call) : tp_state :=
+  fold_left (fun s k => fst (tb_step c bm s k)) ks s.
+
+Definition tb_run (c : tp_cfg) (bm : tp_bmap) (ks : list tp_call) : tp_state := tb_run_from c bm (tp_init c) ks.
 
 Definition tp_run_from (c : tp_cfg) (s : tp_state) (ks : list tp_call) : tp_state :=
   fold_left (fun s k => fst (tp_step c s k)) ks s.
